@@ -98,7 +98,9 @@ func (n *Net) RoundTrip(req *http.Request) (*http.Response, error) {
 	}
 
 	fault := n.Faults[from]
-	delete(n.Faults, from)
+	if fault != nil && (fault.ReqLoss || fault.RespLoss) {
+		delete(n.Faults, from) // loss faults hit the next request; corruption waits for a response it can alter
+	}
 	if fault != nil && fault.ReqLoss {
 		n.s.Stats["fault_net_req_loss"]++
 		n.s.Log("fault", callerName, "net_req_loss "+uri)
@@ -195,6 +197,7 @@ func (n *Net) RoundTrip(req *http.Request) (*http.Response, error) {
 	if fault != nil && fault.CorruptResp != nil && rec.Code == 200 {
 		nb := fault.CorruptResp(uri, respBody)
 		if !bytes.Equal(nb, respBody) {
+			delete(n.Faults, from)
 			n.s.Stats["fault_net_corrupt_resp"]++
 			n.s.Log("fault", callerName, "net_corrupt_resp "+uri)
 			respBody = nb
